@@ -100,6 +100,41 @@ def gen_reference(rng, n, geometry):
         if pos is None:
             pos = generic_positions(rng, n, edges)
             info["geometry"] = "generic"
+    elif geometry == "band":
+        # one anchor NEARLY collinear with its frame neighbours, at any angle between rounding noise and the well-conditioned
+        # range (1e-12 .. 2e-3 rad): the frame is orthonormal there too, only the direction of its normal is ill-conditioned
+        pos = None
+        for _ in range(60):
+            cand = band_conformation(rng, generic_positions(rng, n, edges), edges, n)
+            if cand is not None:
+                pos, info["near_collinear_angle"] = cand
+                break
+        if pos is None:
+            pos = generic_positions(rng, n, edges)
+            info["geometry"] = "generic"
+    elif geometry == "grid":
+        # NOT collinear, but aligned with the coordinate axes: lattice points (spacing 1/8 nm), often all in one coordinate
+        # plane; bonds run along axes and face diagonals, normals are exactly +-x, +-y or +-z
+        pos = None
+        for _ in range(80):
+            planar = rng.random() < 0.5
+            fixed_axis = rng.randrange(3)
+            fixed_val = rng.randint(-8, 8)
+            pts = set()
+            while len(pts) < n:
+                c = [rng.randint(-6, 6) for _ in range(3)]
+                if planar:
+                    c[fixed_axis] = fixed_val
+                pts.add(tuple(c))
+            cand = [[x / 8.0 for x in c] for c in sorted(pts)]
+            rng.shuffle(cand)
+            if _anchors_ok(cand, edges, n):
+                pos = cand
+                info["planar"] = planar
+                break
+        if pos is None:
+            pos = generic_positions(rng, n, edges)
+            info["geometry"] = "generic"
     else:  # mixed: a collinear run glued to a generic remainder
         pos = generic_positions(rng, n, edges)
         adj = gen.adjacency(n, edges)
@@ -118,6 +153,35 @@ def gen_reference(rng, n, geometry):
             info["geometry"] = kind
         info["direction"] = d
     return edges, names, pos, info
+
+
+def band_conformation(rng, positions, edges, n):
+    """`positions` with one anchor's first frame neighbour re-placed at a small angle (1e-12 .. 2e-3 rad, log-uniform) from the
+    line through the anchor and its second frame neighbour; every other anchor generic.  Returns (positions, angle) or None."""
+    cand = [list(p) for p in positions]
+    adj = gen.adjacency(n, [tuple(e) for e in edges])
+    anchors = [i for i in range(n) if len(adj[i]) >= 2]
+    if not anchors:
+        return None
+    a = rng.choice(anchors)
+    n1, n2 = sorted(adj[a])[:2]
+    p0, p2 = np.array(cand[a]), np.array(cand[n2])
+    e1 = (p2 - p0) / np.linalg.norm(p2 - p0)
+    u = np.cross(e1, np.array(gen.unit_vec(rng)))
+    if np.linalg.norm(u) < 0.1:
+        return None
+    u /= np.linalg.norm(u)
+    theta = 10 ** rng.uniform(-12, math.log10(2e-3))
+    L1 = rng.uniform(0.08, 0.3)
+    cand[n1] = list(map(float, p0 + L1 * (math.cos(theta) * e1 * rng.choice([-1, 1]) + math.sin(theta) * u)))
+    if not _well_separated(cand):
+        return None
+    P = np.array(cand)
+    for b in anchors:
+        m1, m2 = sorted(adj[b])[:2]
+        if b != a and XMapModel.sin_angle(P[b], P[m1], P[m2]) < 2e-3:
+            return None
+    return cand, theta
 
 
 def _well_separated(pos, dmin=0.02):
@@ -162,15 +226,15 @@ def generic_positions(rng, n, edges):
 
 
 def gen_species(rng, tier, focus):
-    small_ref = focus == "C02" and rng.random() < 0.4
+    small_ref = (focus == "C02" and rng.random() < 0.4) or (focus == "C03" and rng.random() < 0.12)
     if small_ref:
         n = rng.choice([1, 2, 2])
     else:
         n = rng.randint(3, 14) if tier == "quick" or rng.random() < 0.8 else rng.randint(15, 40)
     if n >= 3:
-        w = {"C01": [3, 2, 2, 2, 2, 1], "C02": [3, 2, 2, 2, 2, 3], "C03": [6, 1, 1, 1, 2, 2], "C04": [6, 1, 1, 1, 1, 1],
-             "C17": [2, 2, 2, 2, 2, 2]}[focus]
-        geometry = rng.choices(["generic", "axis", "diagonal", "intdir", "mixed", "nearly"], weights=w)[0]
+        w = {"C01": [3, 2, 2, 2, 2, 1, 2, 2], "C02": [3, 2, 2, 2, 2, 3, 0, 2], "C03": [6, 1, 1, 1, 2, 2, 2, 1],
+             "C04": [6, 1, 1, 1, 1, 1, 0, 1], "C17": [2, 2, 2, 2, 2, 2, 2, 2]}[focus]
+        geometry = rng.choices(["generic", "axis", "diagonal", "intdir", "mixed", "nearly", "band", "grid"], weights=w)[0]
         edges, names, pos, info = gen_reference(rng, n, geometry)
     else:
         edges = [(0, 1)] if n == 2 else []
@@ -297,6 +361,7 @@ def gen_ops(rng, tier, focus, ref, tgt, info, n_res):
         "C17": {"construction": 3, "rigid": 5, "deformed": 3, "one_moved": 1, "other": 1, "repeat": 0, "reject": 0, "mutate": 0},
     }[focus]
     weights.setdefault("construction_object", 1 if focus != "C17" else 0)
+    weights["again"] = {"C04": 3, "C17": 0}.get(focus, 0.5)
     kinds = list(weights)
     ops = []
     n_calls = 0
@@ -345,6 +410,11 @@ def gen_ops(rng, tier, focus, ref, tgt, info, n_res):
             if focus in ("C02", "C03", "C17") and n >= 3 and rng.random() < 0.2:
                 # a conformation in which one anchor has become EXACTLY collinear (the map was built on another geometry)
                 new = collinearised(rng, ref_g) or new
+            elif focus in ("C03", "C17") and n >= 3 and new is not None and rng.random() < 0.15:
+                # ...or NEARLY collinear, anywhere between rounding noise and the well-conditioned range
+                b = band_conformation(rng, new, ref_g["edges"], n)
+                if b is not None:
+                    new = b[0]
             if new is None:
                 continue
             op = {"op": "call", "conf": "deformed", "positions": new}
@@ -371,7 +441,8 @@ def gen_ops(rng, tier, focus, ref, tgt, info, n_res):
                     new = np.array(base)
                     new[kk] = new[kk] + d
                     if _well_separated(new) and (_anchors_generic(new, ref_g["edges"], n, 2e-3) or
-                                                 (collinear_ok and _anchors_ok(new, ref_g["edges"], n))):
+                                                 (collinear_ok and _anchors_ok(new, ref_g["edges"], n)) or
+                                                 info["geometry"] == "band"):
                         ops.append({"op": "call", "conf": "one_moved", "k": kk, "base": base, "positions": new.tolist()})
                         n_calls += 1
                         break
@@ -388,6 +459,10 @@ def gen_ops(rng, tier, focus, ref, tgt, info, n_res):
         elif k == "construction_object":
             ops.append({"op": "call", "conf": "construction_object"})
             n_calls += 1
+        elif k == "again":
+            # the very OBJECT that was an argument before (possibly moved by the history since) is offered again
+            ops.append({"op": "call", "conf": "argument_again", "pick": rng.randrange(1000)})
+            n_calls += 1
         elif k == "repeat":
             calls = [i for i, o in enumerate(ops) if o["op"] == "call"]
             if calls:
@@ -400,7 +475,7 @@ def gen_ops(rng, tier, focus, ref, tgt, info, n_res):
                     n_calls += 1
         elif k == "reject":
             ops.append({"op": "reject", "kind": rng.choice(["name", "atom_name", "extra_atom", "none", "residue", "array", "str",
-                                                            "moleculetop"])})
+                                                            "moleculetop", "permuted", "fewer"])})
             if rng.random() < 0.4:
                 # the SAME wrong object (or a copy of it, which shares its topology) is offered again, possibly with other
                 # rejected things in between: a rejection must not depend on what was offered before
@@ -484,7 +559,7 @@ def simplify(trace):
 # --------------------------------------------------------------------------
 
 PROP_OF_CONF = {"construction": "C01", "rigid": "C02", "deformed": "C03", "one_moved": "C03", "other_instance": "C04",
-                "construction_object": "C04"}
+                "construction_object": "C04", "argument_again": "C04"}
 
 
 def snap(mol):
@@ -552,15 +627,18 @@ class FrameMonitor:
             return out     # outside the property's domain (first and third point must differ)
         scale = max(np.linalg.norm(p2 - p0), 1e-300)
         s = XMapModel.sin_angle(p0, p1, p2)
-        coll = s < 1e-9
-        if coll:
+        # every clause but the direction of the normal is well conditioned for ANY three points: nothing below depends on
+        # where an implementation draws its own line between "collinear" and "generic"
+        if s < 1e-9:
+            key = "collinear"
             ctx.probe("collinear_frame")
             if np.array_equal(p0, p1):
                 ctx.probe("coincident_middle_point")
         elif s < 1e-3:
-            ctx.probe("near_collinear_frame_not_judged")
-            return out
-        key = "collinear" if coll else "generic"
+            key = "near-collinear"
+            ctx.probe("near_collinear_frame")
+        else:
+            key = "generic"
         if not np.all(np.isfinite(F)):
             ctx.violate("C17", "frame-not-finite", f"frame of points {[p.tolist() for p in before]} contains non-finite "
                                                    f"values: {F.tolist()}", key=key)
@@ -568,18 +646,24 @@ class FrameMonitor:
         err = np.max(np.abs(F @ F.T - np.eye(3)))
         if err > 1e-12:
             ctx.violate("C17", "frame-not-orthonormal", f"frame of points {[p.tolist() for p in before]} is not orthonormal "
-                                                        f"(max |F F^T - 1| = {err:.3e}): {F.tolist()}", key=key)
+                                                        f"(max |F F^T - 1| = {err:.3e}, sine of the angle at the first point "
+                                                        f"{s:.3e}): {F.tolist()}", key=key)
         elif abs(np.linalg.det(F) - 1) > 1e-12:
             ctx.violate("C17", "frame-left-handed", f"frame has determinant {np.linalg.det(F)!r}", key=key)
         e1 = (p2 - p0) / scale
         if np.max(np.abs(F[0] - e1)) > 1e-12:
             ctx.violate("C17", "frame-first-vector", f"first vector {F[0].tolist()} does not point from the first to the "
                                                      f"third point ({e1.tolist()})", key=key)
-        if not coll:
-            d1 = (p1 - p0) / max(np.linalg.norm(p1 - p0), 1e-300)
-            if abs(F[2] @ d1) > 1e-9 or abs(F[2] @ e1) > 1e-12:
+        L1 = np.linalg.norm(p1 - p0)
+        if L1 > 0 and s > 0:
+            # normal to the plane: the rounding error of a cross product is ~eps relative to the vectors, i.e. ~eps/sin
+            # relative to the normal; below sin ~ 1e-7 the bound is weaker than what orthogonality to the first vector implies
+            d1 = (p1 - p0) / L1
+            allowed = 1e-12 + 64 * 2.3e-16 / s
+            if allowed < s and abs(F[2] @ d1) > allowed:
                 ctx.violate("C17", "frame-normal", f"third vector is not normal to the plane of the points "
-                                                   f"(dot products {F[2] @ d1:.3e}, {F[2] @ e1:.3e})", key=key)
+                                                   f"(dot product with the second direction {F[2] @ d1:.3e}, allowed {allowed:.1e}, "
+                                                   f"sine {s:.3e})", key=key)
         if not np.array_equal(origin, p0):
             ctx.violate("C17", "frame-origin", f"origin {origin.tolist()} is not the first point {p0.tolist()}", key=key)
         return out
@@ -729,6 +813,14 @@ def _execute(trace, ctx, ref_spec, tgt_spec, scale, n, m, ref_pos0, tgt_pos0):
                 if len(tied) > 1:
                     ctx.probe("anchor_tie")
 
+    def model_assignment():
+        """The statement's own rule (closest reference atom with two bonds), where it names one atom; None at ties."""
+        out = []
+        for t in range(m):
+            tied = model.tied_anchors(t)
+            out.append(tied[0] if len(tied) == 1 else None)
+        return out
+
     if trace.get("eq_early", True):
         read_assignment()
     else:
@@ -753,6 +845,8 @@ def _execute(trace, ctx, ref_spec, tgt_spec, scale, n, m, ref_pos0, tgt_pos0):
     def conf_positions(op):
         if op["conf"] == "construction_object":
             return np.array(ref_live.atoms_positions, dtype=float)      # wherever the harness' mutations left it
+        if op["conf"] == "argument_again":
+            return np.array(arguments[op["pick"] % len(arguments)][0].atoms_positions, dtype=float)
         if op["conf"] == "construction":
             pos = ref_pos0.copy()
         elif op["conf"] == "rigid":
@@ -765,14 +859,19 @@ def _execute(trace, ctx, ref_spec, tgt_spec, scale, n, m, ref_pos0, tgt_pos0):
         return pos
 
     def do_call(op, i):
-        nonlocal pending_reject
+        nonlocal pending_reject, assignment
         prop = PROP_OF_CONF[op["conf"]]
+        if op["conf"] == "argument_again" and not arguments:
+            return None
         pos = conf_positions(op)
         own = op["conf"] == "other_instance"
         vel = [[0.1 * k, 0.2, -0.3] for k in range(n)] if op.get("velocities") else None
         if op["conf"] == "construction_object":
             arg = ref_live           # the very object the map was built from
             ctx.probe("called_on_construction_object")
+        elif op["conf"] == "argument_again":
+            arg = arguments[op["pick"] % len(arguments)][0]
+            ctx.probe("same_argument_object_again")
         else:
             arg = ref_instance(pos, gro_resids=_expand_resids(ref_spec, op.get("gro_resids")), velocities=vel, own_top=own)
         arg_snap = snap(arg)
@@ -789,6 +888,11 @@ def _execute(trace, ctx, ref_spec, tgt_spec, scale, n, m, ref_pos0, tgt_pos0):
         pending_reject = False
         ctx.steps += 1
         read_assignment()
+        if assignment is None and not small:
+            # the library's table is unusable (already reported): the remaining oracles use the statement's rule instead of
+            # going silent
+            assignment = model_assignment()
+            ctx.probe("assignment_from_model")
         # ---- C04: purity ------------------------------------------------------------------
         d = same_snap(arg_snap, snap(arg))
         if d:
@@ -852,7 +956,8 @@ def _execute(trace, ctx, ref_spec, tgt_spec, scale, n, m, ref_pos0, tgt_pos0):
         # (only for rigid copies of the construction configuration: there C01 + C02 determine the result; for
         #  deformed conformations the properties fix distances and locality, not the frame convention)
         if not small and assignment is not None and op["conf"] in ("construction", "rigid", "other_instance"):
-            pred = model.predict(assignment, pos)
+            pred = model.predict([a if a is not None else model.anchors[0] for a in assignment], pos)
+            pred = [p if a is not None else None for p, a in zip(pred, assignment)]
             worst = 0.0
             for t, p in enumerate(pred):
                 if p is not None:
@@ -863,13 +968,22 @@ def _execute(trace, ctx, ref_spec, tgt_spec, scale, n, m, ref_pos0, tgt_pos0):
                             key=trace["info"]["geometry"])
         # ---- property specific clauses -------------------------------------------------------
         outcome = "ok"
-        if op["conf"] == "construction":
+        if op["conf"] == "construction" or (op["conf"] in ("construction_object", "argument_again") and
+                                            np.array_equal(pos, ref_pos0)):
+            # (the construction configuration, as a new instance or as the very object the map was built from)
             check_c01(pos, rpos)
         if op["conf"] in ("rigid", "other_instance") or (op["conf"] == "construction"):
             check_c02(op, pos, rpos, coord_scale)
         if op["conf"] == "construction_object" and small and construction_rigid[0]:
             # the construction object itself, wherever the harness' rigid mutations have left it
             check_c02(op, pos, rpos, coord_scale)
+        if op["conf"] in ("construction_object", "argument_again") and not small:
+            # ... for larger references the rigid motion is recovered from the coordinates (a least-squares fit that is
+            # exact for a rigid copy); anything that is not a rigid copy of the construction configuration is left to C03
+            fit = _rigid_fit(ref_pos0, pos)
+            if fit is not None:
+                check_c02({"R": fit[0], "t": fit[1]}, pos, rpos, coord_scale)
+                ctx.probe("equivariance_on_moved_object")
         if op["conf"] in ("deformed", "one_moved", "rigid", "other_instance", "construction", "construction_object"):
             check_c03_shape(pos, rpos)
         if op["conf"] == "one_moved":
@@ -881,12 +995,15 @@ def _execute(trace, ctx, ref_spec, tgt_spec, scale, n, m, ref_pos0, tgt_pos0):
             if inner is not None:
                 R = np.array(op["R"])
                 want = inner @ R.T + np.array(op["t"])
+                tol8 = 1e-8 * max(1.0, coord_scale / 100.0)
                 for k in range(m):
                     a = assignment[k]
+                    if a is None:
+                        continue
                     sa = model.anchor_sin(a, D)
                     if sa >= 1e-3:
                         dev = float(np.max(np.abs(rpos[k] - want[k])))
-                        if dev > 1e-8 * coord_scale:
+                        if dev > tol8:
                             ctx.violate("C02", "rigid-motion", f"deformed conformation D: map(R D + t) differs from R map(D) + t by "
                                                                f"{dev:.3e} nm at target atom {k} (anchor {a})", key="deformed")
                             break
@@ -896,7 +1013,7 @@ def _execute(trace, ctx, ref_spec, tgt_spec, scale, n, m, ref_pos0, tgt_pos0):
                         u0 = (D[n2] - D[a]) / np.linalg.norm(D[n2] - D[a])
                         i1 = axis_invariants(rpos[k], pos[a], u1)
                         i0 = axis_invariants(inner[k], D[a], u0)
-                        if max(abs(x - y) for x, y in zip(i1, i0)) > 1e-8 * coord_scale:
+                        if max(abs(x - y) for x, y in zip(i1, i0)) > tol8:
                             ctx.violate("C02", "collinear-axis-invariants", f"conformation with collinear anchor {a}: target atom {k} "
                                                                             f"has (distance, axial, radial) = {i1}, but {i0} before the "
                                                                             f"rigid motion", key="deformed-collinear")
@@ -916,11 +1033,13 @@ def _execute(trace, ctx, ref_spec, tgt_spec, scale, n, m, ref_pos0, tgt_pos0):
         worst = 0.0
         wt = None
         for t, a in enumerate(assignment):
+            if a is None:
+                continue
             want = ref_pos0[a] + scale * (tgt_pos0[t] - ref_pos0[a])
             dev = float(np.max(np.abs(want - rpos[t])))
             if dev > worst:
                 worst, wt = dev, t
-        tol = 1e-9 * max(1.0, float(np.max(np.abs(ref_pos0))), float(np.max(np.abs(tgt_pos0))))
+        tol = 1e-9                  # the statement's figure, absolute (coordinates here stay below ~50 nm: rounding ~1e-13)
         if worst > tol:
             a = assignment[wt]
             ctx.violate("C01", "anchor-scale-law", f"scale {scale}: target atom {wt} (anchor {a}, geometry "
@@ -934,6 +1053,17 @@ def _execute(trace, ctx, ref_spec, tgt_spec, scale, n, m, ref_pos0, tgt_pos0):
         if small:
             p0 = pos[0]
             b0 = ref_pos0[0]
+            if n == 2:
+                # "up to a rotation about that axis": ONE rotation for the whole mapped molecule
+                for x in range(m):
+                    for y in range(x + 1, m):
+                        d1 = np.linalg.norm(rpos[x] - rpos[y])
+                        d0 = np.linalg.norm(base_result[x] - base_result[y])
+                        if abs(d1 - d0) > 1e-8:
+                            ctx.violate("C02", "two-atom-not-one-rotation",
+                                        f"two-atom reference: mapped atoms {x},{y} are {d1!r} nm apart, {d0!r} on the construction "
+                                        f"configuration (the atoms were not rotated together)")
+                            return
             for k in range(m):
                 if n == 1:
                     d1 = np.linalg.norm(rpos[k] - p0)
@@ -956,11 +1086,14 @@ def _execute(trace, ctx, ref_spec, tgt_spec, scale, n, m, ref_pos0, tgt_pos0):
             return
         if assignment is None:
             return
+        tol8 = 1e-8 * max(1.0, coord_scale / 100.0)      # the statement's figure up to 100 nm, relative beyond
         for k in range(m):
             a = assignment[k]
+            if a is None:
+                continue
             if model.anchor_sin(a) >= 1e-3:
                 dev = float(np.max(np.abs(rpos[k] - want[k])))
-                if dev > 1e-8 * coord_scale:
+                if dev > tol8:
                     ctx.violate("C02", "rigid-motion", f"map(R ref + t) differs from R map(ref) + t by {dev:.3e} nm at "
                                                        f"target atom {k} (anchor {a})", key="generic")
                     return
@@ -971,17 +1104,39 @@ def _execute(trace, ctx, ref_spec, tgt_spec, scale, n, m, ref_pos0, tgt_pos0):
                 i1 = axis_invariants(rpos[k], pos[a], u1)
                 i0 = axis_invariants(base_result[k], ref_pos0[a], u0)
                 dev = max(abs(x - y) for x, y in zip(i1, i0))
-                if dev > 1e-8 * coord_scale:
+                if dev > tol8:
                     ctx.violate("C02", "collinear-axis-invariants",
                                 f"collinear anchor {a}: target atom {k} has (distance, axial, radial) = {i1}, but {i0} before "
                                 f"the rigid motion", key="collinear")
                     return
 
     def check_c03_shape(pos, rpos):
-        if small or assignment is None:
+        if small:
+            # one anchor (the first atom) for every target atom: distances to it and all mutual distances scale by s,
+            # whatever the completion of the frame was
+            tol = 1e-9 * max(1.0, float(np.max(np.abs(tgt_pos0 - ref_pos0[0]))))
+            for k in range(m):
+                want = scale * np.linalg.norm(tgt_pos0[k] - ref_pos0[0])
+                got = np.linalg.norm(rpos[k] - pos[0])
+                if abs(got - want) > tol:
+                    ctx.violate("C03", "anchor-distance", f"{n}-atom reference: target atom {k} lies {got!r} nm from the first "
+                                                          f"reference atom; s * construction distance is {want!r}", key="small")
+                    return
+            for x in range(m):
+                for y in range(x + 1, m):
+                    want = scale * np.linalg.norm(tgt_pos0[x] - tgt_pos0[y])
+                    got = np.linalg.norm(rpos[x] - rpos[y])
+                    if abs(got - want) > tol:
+                        ctx.violate("C03", "intra-anchor-distance", f"{n}-atom reference: target atoms {x},{y} are {got!r} nm apart; "
+                                                                    f"s * construction distance is {want!r} (the mapped molecule "
+                                                                    f"is not one rigid image)", key="small")
+                        return
             return
-        tol = 1e-9 * max(1.0, float(np.max(np.abs(tgt_pos0 - ref_pos0[assignment]))))
-        for k in range(m):
+        if assignment is None:
+            return
+        known = [k for k in range(m) if assignment[k] is not None]
+        tol = 1e-9 * max([1.0] + [float(np.max(np.abs(tgt_pos0[k] - ref_pos0[assignment[k]]))) for k in known])
+        for k in known:
             a = assignment[k]
             want = scale * np.linalg.norm(tgt_pos0[k] - ref_pos0[a])
             got = np.linalg.norm(rpos[k] - pos[a])
@@ -991,7 +1146,8 @@ def _execute(trace, ctx, ref_spec, tgt_spec, scale, n, m, ref_pos0, tgt_pos0):
                 return
         groups = {}
         for k, a in enumerate(assignment):
-            groups.setdefault(a, []).append(k)
+            if a is not None:
+                groups.setdefault(a, []).append(k)
         for a, ks in groups.items():
             for x in range(len(ks)):
                 for y in range(x + 1, len(ks)):
@@ -1016,7 +1172,7 @@ def _execute(trace, ctx, ref_spec, tgt_spec, scale, n, m, ref_pos0, tgt_pos0):
         kk = op["k"]
         ctx.probe("locality_checked")
         for t, a in enumerate(assignment):
-            if kk == a or kk in model.neigh[a]:
+            if a is None or kk == a or kk in model.neigh[a]:
                 continue
             dev = float(np.max(np.abs(rpos[t] - base[t])))
             if dev > 1e-12 * max(1.0, float(np.max(np.abs(pos)))):
@@ -1032,7 +1188,7 @@ def _execute(trace, ctx, ref_spec, tgt_spec, scale, n, m, ref_pos0, tgt_pos0):
         elif kind == "repeat":
             src = trace["ops"][op["of"]] if op["of"] < len(trace["ops"]) else None
             if src is not None and src.get("op") == "call":
-                if op.get("jitter") and src["conf"] != "construction_object":
+                if op.get("jitter") and src["conf"] not in ("construction_object", "argument_again"):
                     import random as _r
                     jr = _r.Random(op["jseed"])
                     base = conf_positions(src)
@@ -1084,6 +1240,7 @@ def _execute(trace, ctx, ref_spec, tgt_spec, scale, n, m, ref_pos0, tgt_pos0):
             base_result = np.array(base_map(ref_instance(ref_spec["positions"], own_top=True)).atoms_positions)
             results.clear()
             calls_by_op.clear()
+            arguments.clear()        # (instances built on the topology as it was are another species' business now)
             snap_ref_live = snap(ref_live)
             snap_tgt_live = snap(tgt_live)
             ctx.op("rebond", "new-map")
@@ -1142,13 +1299,42 @@ def _execute(trace, ctx, ref_spec, tgt_spec, scale, n, m, ref_pos0, tgt_pos0):
             for r in returned:
                 if r[0] is target:
                     r[1] = snap(target)
+            for a_ in arguments:
+                if a_[0] is target:
+                    a_[1] = snap(target)
     read_assignment()
+    # arguments of earlier calls must still be what they were when offered (unless the harness mutated them)
+    for a_obj, s0 in arguments:
+        d = same_snap(s0, snap(a_obj))
+        if d:
+            ctx.violate(P4, "earlier-argument-modified", f"the {d} of a molecule that was an argument earlier changed later in "
+                                                         f"the history")
+            break
     # results handed out earlier must still be what they were when returned (unless the harness mutated them)
     for r, s0 in returned:
         d = same_snap(s0, snap(r))
         if d:
             ctx.violate(P4, "earlier-result-modified", f"the {d} of a returned molecule changed later in the history")
             break
+
+
+def _rigid_fit(A, B):
+    """(R, t) with B = A R^T + t when B is a rigid copy of A (residual below 1e-10 relative, proper rotation, A not collinear);
+    None otherwise."""
+    A = np.asarray(A, dtype=float)
+    B = np.asarray(B, dtype=float)
+    ca, cb = A.mean(axis=0), B.mean(axis=0)
+    H = (A - ca).T @ (B - cb)
+    U, S, Vt = np.linalg.svd(H)
+    if S[1] < 1e-6 * max(S[0], 1e-300):
+        return None                      # collinear: the rotation about the line is not determined
+    d = np.sign(np.linalg.det(Vt.T @ U.T))
+    R = Vt.T @ np.diag([1.0, 1.0, d]) @ U.T
+    t = cb - R @ ca
+    res = float(np.max(np.abs(A @ R.T + t - B)))
+    if d < 0 or res > 1e-10 * max(1.0, float(np.max(np.abs(B)))):
+        return None
+    return R, t
 
 
 def _expand_resids(spec, per_res):
@@ -1194,6 +1380,24 @@ def make_rejected(kind, ref_spec, ref_pos0):
         names = list(spec["atom_names"])
         names[len(names) // 2] = "ZZ" + names[len(names) // 2][:2]
         spec["atom_names"] = names
+    elif kind == "permuted":
+        # the same atoms in another order (two atoms with different names swapped)
+        names = list(spec["atom_names"])
+        pairs = [(i, j) for i in range(len(names)) for j in range(i + 1, len(names)) if names[i] != names[j]]
+        if not pairs:
+            spec["name"] = "OTHER"
+        else:
+            i, j = pairs[len(pairs) // 2]
+            names[i], names[j] = names[j], names[i]
+            spec["atom_names"] = names
+    elif kind == "fewer":
+        n = len(spec["atom_names"])
+        if n < 2 or len(set(zip(spec["resnames"][:-1], spec["resids"][:-1]))) != len(set(zip(spec["resnames"], spec["resids"]))):
+            spec["name"] = "OTHER"
+        else:
+            for key in ("atom_names", "resnames", "resids", "positions"):
+                spec[key] = list(spec[key])[:-1]
+            spec["edges"] = [list(e) for e in spec["edges"] if n - 1 not in e]
     elif kind == "extra_atom":
         n = len(spec["atom_names"])
         spec["atom_names"] = list(spec["atom_names"]) + ["XQ1"]
